@@ -1,3 +1,7 @@
+// The library declares "go 1.20": a program built by its own module gets the timer-channel semantics of that
+// release. The harness module is newer, so the test binary asks for them explicitly.
+//
+//go:debug asynctimerchan=1
 package harness
 
 // TestMain: the test binary re-executes itself as a stdio child ("puppet") when
